@@ -88,7 +88,9 @@ pub fn judge_certificate(ev: &KktEval, primal: bool, kappa: f64, c: f64, tol_abs
         if !(ev.z_margin >= -1e-12) {
             out.push(("cert_z_not_in_Kstar".into(), json!({"relative_margin": ev.z_margin, "cone": ev.z_worst_cone})));
         }
-        if !(ev.bz < 0.0) {
+        // (sign tests carry the rounding bound of an f64 evaluation too: with terms of size 1e18 cancelling to O(1) the
+        // sign of the exact sum is below the noise of the solver's own arithmetic)
+        if !(ev.bz < ev.slack_bz) {
             out.push(("cert_bz_not_negative".into(), json!({"bz": ev.bz})));
         }
         let dot_bz = kappa * c * ev.bz;
@@ -105,7 +107,7 @@ pub fn judge_certificate(ev: &KktEval, primal: bool, kappa: f64, c: f64, tol_abs
         if !(ev.s_margin >= -1e-12) {
             out.push(("cert_s_not_in_K".into(), json!({"relative_margin": ev.s_margin, "cone": ev.s_worst_cone})));
         }
-        if !(ev.qx < 0.0) {
+        if !(ev.qx < ev.slack_qx) {
             out.push(("cert_qx_not_negative".into(), json!({"qx": ev.qx})));
         }
         let dot_qx = kappa * c * ev.qx;
